@@ -18,12 +18,41 @@ All theorems are about `Tsp.lib` (`Model/Tsp.lean`), the definition the driver `
 -/
 namespace Tsp
 
+/-! ## Constants regenerated from `tsp/tsplib.go` (`Gen/TspConsts.lean`, rewritten on every run)
+
+The model reads the header/trailer strings and the `tabwriter.NewWriter` arguments from the generated file.  The
+theorems below are the only places where concrete values are needed; they are discharged by evaluation of the
+generated definitions, so a change of a value the property dictates makes this file stop compiling. Values the
+property does not care about are *not* pinned: the partition of the header into write calls (any), `minwidth`
+(any), `padding` (any value ≥ 1), `AlignRight` on or off, `tabwidth` (unused unless padchar is a tab).  No theorem depends on the
+shape of the code (number or order of calls, error checks): that is what the fault-injection stream checks. -/
+
+/-- what the output theorems need from the tabwriter arguments: cells are separated by blanks, at least one -/
+theorem tabwriter_config_ok : padChar = ' ' ∧ 0 < padding := ⟨padChar_eq, padding_pos⟩
+
+/-- **The TSPLIB keywords.**  The header written by the code (whatever its partition into write calls) reads back as
+`TYPE: TSP` / `DIMENSION: n` / `DISPLAY_DATA_TYPE: NO_DISPLAY` / `EDGE_WEIGHT_TYPE: EXPLICIT` /
+`EDGE_WEIGHT_FORMAT: LOWER_DIAG_ROW` / `EDGE_WEIGHT_SECTION`. -/
+theorem expectedHeader_tokens (n : Nat) :
+    expectedHeader n =
+      [["TYPE:".toList, "TSP".toList], ["DIMENSION:".toList, decNat n],
+       ["DISPLAY_DATA_TYPE:".toList, "NO_DISPLAY".toList], ["EDGE_WEIGHT_TYPE:".toList, "EXPLICIT".toList],
+       ["EDGE_WEIGHT_FORMAT:".toList, "LOWER_DIAG_ROW".toList], ["EDGE_WEIGHT_SECTION".toList]] :=
+  expectedHeader_eq n
+
+/-- the trailer reads back as `EOF` followed by nothing -/
+theorem expectedTrailer_tokens : (lines trailerText).map fields = [["EOF".toList], []] := expectedTrailer_eq
+
+/-- the write calls before / after the weight section carry exactly the generated header / trailer text -/
+theorem hdrWrites_text (n : Nat) : (hdrWrites n).flatten = headerText n ∧ trailerWrites.flatten = trailerText :=
+  ⟨hdrWrites_flatten n, trailerWrites_flatten⟩
+
 /-! ## Output well formed and faithful -/
 
 /-- **Output.**  On a writer that never fails `LIB` returns `nil`, and its output, cut into lines at `\n` and into
-fields at blanks, is exactly: `TYPE: TSP`, `DIMENSION: n`, the three fixed header lines, `EDGE_WEIGHT_SECTION`,
-then for `i = 0 … n-1` the row `w(i,0) … w(i,i-1) 0` in decimal, then `EOF`, and nothing after its line break.
-For all `n` and all weight functions. -/
+fields at blanks, is exactly `expected n w`: the header (`expectedHeader_tokens`: `TYPE: TSP`, `DIMENSION: n`, the
+three fixed lines, `EDGE_WEIGHT_SECTION`), then for `i = 0 … n-1` the row `w(i,0) … w(i,i-1) 0` in decimal, then
+`EOF`, and nothing after its line break.  For all `n` and all weight functions. -/
 theorem lib_output (n : Nat) (w : Nat → Nat → Int) :
     (lib n w noFaults).err = none ∧ parse (lib n w noFaults).out = expected n w :=
   ⟨by rw [lib_noFaults], parse_out n w⟩
@@ -62,7 +91,7 @@ theorem lib_bytes (n : Nat) (w : Nat → Nat → Int) :
 faults into call indices: their number is the number of calls `lib` makes and their concatenation is its output. -/
 theorem libChunks_spec (n : Nat) (w : Nat → Nat → Int) :
     (libChunks n w).length = (lib n w noFaults).calls ∧ (libChunks n w).flatten = (lib n w noFaults).out := by
-  have h : libChunks n w = [hdr1, hdr2 n, hdr3] ++ (body n w).map Chunk.bytes ++ [trailer] := by
+  have h : libChunks n w = hdrWrites n ++ (body n w).map Chunk.bytes ++ trailerWrites := by
     simp only [libChunks, TW.new, rows_eq, TW.flushChunks, TW.lines, body, triLines, List.nil_append,
       List.length_nil, Nat.lt_irrefl, if_false]
   rw [h, lib_noFaults]
@@ -83,7 +112,7 @@ theorem lib_weights_domain (n : Nat) (w : Nat → Nat → Int) (f : Nat → Writ
 /-- **Exactly once, row by row.**  The calls are either none at all (only when one of the three header writes
 failed) or exactly `(1,0), (2,0), (2,1), (3,0), …` — every pair `j < i < n` once, in row-major order. -/
 theorem lib_weights_row_by_row (n : Nat) (w : Nat → Nat → Int) (f : Nat → WriteResult) :
-    ((lib n w f).wcalls = [] ∧ ∃ k, k < 3 ∧ ∃ c, f k = .err c) ∨
+    ((lib n w f).wcalls = [] ∧ ∃ k, k < (hdrWrites n).length ∧ ∃ c, f k = .err c) ∨
       (lib n w f).wcalls = (List.range n).flatMap (fun i => (List.range i).map (fun j => (i, j))) := by
   rw [← allPairs_eq]; exact lib_wcalls n w f
 
@@ -95,13 +124,13 @@ theorem lib_weights_pairs (n : Nat) :
 
 /-- If the header was written, the whole table is read. -/
 theorem lib_weights_all_read (n : Nat) (w : Nat → Nat → Int) (f : Nat → WriteResult)
-    (h : ∀ k, k < 3 → ∀ c, f k ≠ .err c) :
+    (h : ∀ k, k < (hdrWrites n).length → ∀ c, f k ≠ .err c) :
     (lib n w f).wcalls = (List.range n).flatMap (fun i => (List.range i).map (fun j => (i, j))) := by
   rcases lib_weights_row_by_row n w f with ⟨_, k, hk, c, hc⟩ | h'
   · exact absurd hc (h k hk c)
   · exact h'
 
-example : ∀ k, k < 3 → ∀ c, noFaults k ≠ .err c := by intro k _ c h; cases h
+example (n : Nat) : ∀ k, k < (hdrWrites n).length → ∀ c, noFaults k ≠ .err c := by intro k _ c h; cases h
 
 /-- **Only the domain matters.**  The result of `LIB` (bytes, error, number of `Write` calls) does not depend on
 the values of `weights` outside `0 ≤ j < i < n`. -/
@@ -129,7 +158,7 @@ theorem lib_reports_failure (n : Nat) (w : Nat → Nat → Int) (f : Nat → Wri
   exact lib_clean n w f h k (Nat.zero_le _) hk c hc
 
 example : ∃ k, k < (lib 0 (fun _ _ => 0) (fun _ => .err 0)).calls ∧ ∃ c, (fun _ : Nat => WriteResult.err 0) k = .err c :=
-  ⟨0, (by rw [lib_unfold]; simp [write, Res.of]), 0, rfl⟩
+  ⟨0, (by rw [lib_unfold]; simp [writeAll, hdrWrites, hdrSegs, Gen.Tsp.found_header, Gen.Tsp.hdrWrites, write, Res.of]), 0, rfl⟩
 
 /-- The same for writers that honour the `io.Writer` contract (a short count comes with an error, i.e. no
 `shortNil`): any attempted `Write` whose result is not `ok` makes `LIB` return a non-nil error. -/
@@ -146,18 +175,7 @@ theorem lib_reports_failure_of_contract (n : Nat) (w : Nat → Nat → Int) (f :
 
 example : (∀ k c, (fun _ : Nat => WriteResult.err 0) k ≠ .shortNil c) ∧
     ∃ k, k < (lib 0 (fun _ _ => 0) (fun _ => .err 0)).calls ∧ (fun _ : Nat => WriteResult.err 0) k ≠ .ok :=
-  ⟨(by intro k c h; cases h), 0, (by rw [lib_unfold]; simp [write, Res.of]), (by intro h; cases h)⟩
-
-/-- Why the contract hypothesis is needed (documented behaviour of the current code, not a theorem of the
-property): a writer that accepts 3 of the 10 bytes of the first `Write` and returns `(3, nil)` — forbidden by the
-`io.Writer` contract — is not noticed, because `io.WriteString`/`fmt.Fprintf` hand `(n, nil)` through and `LIB`
-only looks at the error.  (Inside the weight section `tabwriter.write0` turns the same thing into
-`io.ErrShortWrite`; the `tspf … s t` stream compares both behaviours with the code.) -/
-example : (lib 0 (fun _ _ => 0) (fun k => if k = 0 then .shortNil 3 else .ok)).err = none ∧
-    (lib 0 (fun _ _ => 0) (fun k => if k = 0 then .shortNil 3 else .ok)).out =
-      hdr1.take 3 ++ hdr2 0 ++ hdr3 ++ trailer := by
-  rw [lib_unfold]
-  simp [write, body_eq, writeAll0, write0, Chunk.bytes, Res.of]
+  ⟨(by intro k c h; cases h), 0, (by rw [lib_unfold]; simp [writeAll, hdrWrites, hdrSegs, Gen.Tsp.found_header, Gen.Tsp.hdrWrites, write, Res.of]), (by intro h; cases h)⟩
 
 /-- **No success for truncated output.**  For writers that honour the `io.Writer` contract: if `LIB` returns
 `nil`, the writer received exactly the complete output (and the run is the fault-free run). -/
